@@ -114,7 +114,25 @@ func (r *c31real) gens() (cur, fut *cuckoo.Filter, nextCap uint) {
 	return d.current, d.future, d.capacity
 }
 
+// fillFuture returns the fill of the second generation, if it exists.
+func (r *c31real) fillFuture() (count uint, lf float64, exists bool) {
+	d := r.c.dropped
+	d.mut.RLock()
+	defer d.mut.RUnlock()
+	if d.future == nil {
+		return 0, 0, false
+	}
+	return d.future.Count(), d.future.LoadFactor(), true
+}
+
 func (r *c31real) maintain() { r.c.dropped.Maintain() }
+
+// c31slots is the number of fingerprint slots of a filter created with capacity capa.
+func c31slots(capa uint) int {
+	f := cuckoo.NewFilter(capa)
+	f.Insert([]byte("x"))
+	return int(1/f.LoadFactor() + 0.5)
+}
 
 // ---- stubs --------------------------------------------------------------------
 
@@ -144,8 +162,19 @@ type c31keptRec struct {
 	resizedSince bool
 }
 
+// c31gen is one filter generation as the MODEL sees it: generations are created and
+// handed over (future -> current) only by Maintain; nothing else may replace one.
+type c31gen struct {
+	n         int
+	capa      uint
+	fullEpoch int // incremented each time the generation is seen filled to its capacity
+}
+
 type c31dropRec struct {
-	epoch    int
+	// the generation(s) the record went into (current, and future if it existed) and
+	// their fullEpoch at that time
+	g1, g2   *c31gen
+	e1, e2   int
 	overflow bool
 	ordinal  int // number of dropped records before this one
 }
@@ -173,12 +202,10 @@ type c31case struct {
 	dropped  map[string]*c31dropRec
 	dropIDs  []string
 	everDrop map[string]bool
-	epoch    int
 	nDropped int
 	// capacity each filter generation was created with (generations are told apart by identity)
-	capOf      map[*cuckoo.Filter]uint
-	curGen     *cuckoo.Filter
-	capCurrent uint
+	curL, futL *c31gen
+	nGens      int
 	capsUsed   map[uint]bool
 
 	hist      []c31step
@@ -186,7 +213,7 @@ type c31case struct {
 	kinds     strings.Builder
 	nextID    int
 
-	sawEvictionBoundary, sawDropWithKept, sawFilterFilled, sawResize bool
+	sawEvictionBoundary, sawDropWithKept, sawFilterFilled, sawResize, sawHandover bool
 	// retention measurement (evidence only): false once the history did something that
 	// makes "age in dropped records" meaningless (burst past the capacity, dropped-size change)
 	cleanRetention bool
@@ -194,6 +221,9 @@ type c31case struct {
 	dropCount    map[string]int
 	maxDropCount int
 	dupHeavy     bool // only a quarter of the histories record one id as dropped more than 3 times
+	workers      uint
+	cycles       int
+	maxCycles    int
 }
 
 func (c *c31case) log(st c31step) {
@@ -207,7 +237,7 @@ func (c *c31case) log(st c31step) {
 func (c *c31case) witness(extra ...any) map[string]any {
 	count, lf := c.real.fill()
 	w := map[string]any{"history_tail": c.hist, "history_steps_omitted": c.histTrunc, "kept_capacity_per_worker": c.k,
-		"filter_entries": count, "filter_load_factor": lf, "filter_capacity_current_generation": c.capCurrent, "dropped_records_so_far": c.nDropped}
+		"filter_entries": count, "filter_load_factor": lf, "filter_capacity_current_generation": c.curL.capa, "future_generation_exists": c.futL != nil, "dropped_records_so_far": c.nDropped}
 	for i := 0; i+1 < len(extra); i += 2 {
 		w[fmt.Sprint(extra[i])] = extra[i+1]
 	}
@@ -249,16 +279,30 @@ func (c *c31case) touchPossible(id string) {
 
 func (c *c31case) promised(id string) bool {
 	d, ok := c.dropped[id]
-	return ok && !d.overflow && d.epoch == c.epoch
+	if !ok || d.overflow {
+		return false
+	}
+	return (d.g1 == c.curL && d.e1 == c.curL.fullEpoch) || (d.g2 == c.curL && d.e2 == c.curL.fullEpoch)
+}
+
+// viaHandover: the promise rests on the copy that went into what was the future generation then.
+func (c *c31case) viaHandover(id string) bool {
+	d := c.dropped[id]
+	return d != nil && d.g1 != c.curL && d.g2 == c.curL
 }
 
 // afterDrain samples the filter fill; a filter filled to capacity ends every outstanding dropped promise.
 func (c *c31case) afterDrain() {
 	count, lf := c.real.fill()
-	if count >= c.capCurrent || lf > 0.99 {
-		c.epoch++
+	if count >= c.curL.capa || lf > 0.99 {
+		c.curL.fullEpoch++
 		c.sawFilterFilled = true
 		c.run.Count("filter_filled_to_capacity_events", 1)
+	}
+	if c.futL != nil {
+		if fc, flf, ok := c.real.fillFuture(); ok && (fc >= c.futL.capa || flf > 0.99) {
+			c.futL.fullEpoch++
+		}
 	}
 }
 
@@ -303,7 +347,11 @@ func (c *c31case) recordDroppedNoDrain(id string) bool {
 	if _, ok := c.dropped[id]; !ok {
 		c.dropIDs = append(c.dropIDs, id)
 	}
-	c.dropped[id] = &c31dropRec{epoch: c.epoch, overflow: overflow, ordinal: c.nDropped}
+	rec := &c31dropRec{g1: c.curL, e1: c.curL.fullEpoch, overflow: overflow, ordinal: c.nDropped}
+	if c.futL != nil {
+		rec.g2, rec.e2 = c.futL, c.futL.fullEpoch
+	}
+	c.dropped[id] = rec
 	c.everDrop[id] = true
 	c.nDropped++
 	c.dropCount[id]++
@@ -341,6 +389,11 @@ func (c *c31case) recordDropped(id string) {
 
 func (c *c31case) burst(n int) {
 	c.sweep() // every outstanding promise is checked while it still holds
+	c.fill(n)
+}
+
+// fill is burst without the preceding sweep.
+func (c *c31case) fill(n int) {
 	for i := 0; i < n; i++ {
 		c.recordDroppedNoDrain(c.newID("d"))
 	}
@@ -350,37 +403,104 @@ func (c *c31case) burst(n int) {
 	c.log(c31step{Op: "Record(drop) x n, new ids, drained afterwards", N: n})
 }
 
-// trackGens learns about filter generations created by the last call into the cache:
-// a generation not seen before was created with the capacity that is configured now
-// (only the driver changes it, between calls).
-func (c *c31case) trackGens() (rotated bool) {
-	cur, fut, nextCap := c.real.gens()
-	for _, f := range []*cuckoo.Filter{cur, fut} {
-		if f == nil {
-			continue
-		}
-		if _, ok := c.capOf[f]; !ok {
-			c.capOf[f] = nextCap
-			c.capsUsed[nextCap] = true
-		}
-	}
-	rotated = c.curGen != nil && cur != c.curGen
-	c.curGen = cur
-	c.capCurrent = c.capOf[cur]
-	return rotated
+func (c *c31case) newGen(capa uint) *c31gen {
+	c.nGens++
+	c.capsUsed[capa] = true
+	return &c31gen{n: c.nGens, capa: capa}
 }
 
-func (c *c31case) maintain() {
+// maintain calls Maintain and moves the model's generations the way the unchanged
+// Maintain does: a rotation makes the previous future generation the current one (or a
+// fresh one if there was none), and a future generation that appears is new. Whether a
+// rotation / creation happened is read off the real object (so retuned thresholds do not
+// matter); WHICH generation becomes current is the model's expectation, not an observation.
+func (c *c31case) maintain() (rotated bool) {
 	c.real.drain()
 	c.afterDrain()
 	_, lf := c.real.fill()
+	curBefore, _, _ := c.real.gens()
 	c.real.maintain()
-	if c.trackGens() {
+	curAfter, futAfter, nextCap := c.real.gens()
+	if curAfter != curBefore {
+		rotated = true
+		if c.futL != nil {
+			c.curL = c.futL
+		} else {
+			c.curL = c.newGen(nextCap)
+		}
+		c.futL = nil
 		c.run.Count("filter_rotations", 1)
+	}
+	if futAfter != nil && c.futL == nil {
+		c.futL = c.newGen(nextCap)
 	}
 	c.afterDrain()
 	c.kinds.WriteByte('M')
-	c.log(c31step{Op: "Maintain", Note: fmt.Sprintf("load factor before %.3f", lf)})
+	c.log(c31step{Op: "Maintain", Note: fmt.Sprintf("load factor before %.3f, rotated %v, future exists %v", lf, rotated, c.futL != nil)})
+	return rotated
+}
+
+// cycle drives the dropped filter through a complete hand-over: make sure the future
+// generation exists, record dropped decisions (they go into both generations), change
+// DroppedSize with a Resize at that point of the cycle, fill the current generation until
+// Maintain swaps, and check every outstanding promise against the new current generation.
+func (c *c31case) cycle() {
+	rng := c.rng
+	fillTo := func(target float64) {
+		slots := c31slots(c.curL.capa)
+		count, lf := c.real.fill()
+		if lf > target {
+			return
+		}
+		n := int(target*float64(slots)) - int(count) + 2
+		if n > 900 {
+			n = 900 // stay below the add-queue depth between drains
+		}
+		if n < 1 {
+			n = 1
+		}
+		c.cleanRetention = false
+		c.fill(n)
+	}
+	c.sweep()
+	for i := 0; i < 6 && c.futL == nil; i++ {
+		fillTo(0.5)
+		c.maintain()
+	}
+	if c.futL == nil {
+		return
+	}
+	for i := rng.Range(1, 12); i > 0; i-- {
+		if rng.Chance(0.2) && len(c.keptIDs) > 0 {
+			id, _ := c.pickKept()
+			c.recordDropped(id)
+		} else {
+			c.recordDropped(c.newID("d"))
+		}
+	}
+	if rng.Chance(0.7) {
+		_, _, nextCap := c.real.gens()
+		nd := nextCap
+		for nd == nextCap {
+			nd = uint(verifkit.Pick(rng, 32, 64, 128, 500, 700, 1500))
+		}
+		if c.dupHeavy && nd < 500 {
+			nd = 700
+		}
+		c.resize(uint(c.k)*c.workers, nd*c.workers, c.workers)
+	}
+	for i := rng.Range(0, 6); i > 0; i-- {
+		c.recordDropped(c.newID("d"))
+	}
+	c.sweep()
+	for i := 0; i < 12; i++ {
+		fillTo(0.995)
+		if c.maintain() {
+			break
+		}
+	}
+	c.sweep()
+	c.kinds.WriteByte('C')
 }
 
 func (c *c31case) resize(keptSize, droppedSize, workers uint) {
@@ -447,6 +567,10 @@ func (c *c31case) lookup(id string, span bool) {
 	switch {
 	case c.promised(id):
 		c.run.Count("dropped_promise_checks", 1)
+		if c.viaHandover(id) {
+			c.run.Count("dropped_promise_checks_across_handover", 1)
+			c.sawHandover = true
+		}
 		if answer != "dropped" {
 			sig := "C31/dropped/" + call + "/answered-" + answer
 			if hasKept {
@@ -517,7 +641,7 @@ func (c *c31case) sweep() {
 // retentionProbe measures (no verdict) how long dropped decisions were actually
 // remembered, in dropped records since the record, relative to the filter capacity.
 func (c *c31case) retentionProbe(maintainedEveryStep bool) {
-	if !c.cleanRetention || !maintainedEveryStep || c.capCurrent == 0 {
+	if !c.cleanRetention || !maintainedEveryStep || c.curL.capa == 0 {
 		return
 	}
 	for _, id := range c.dropIDs {
@@ -529,13 +653,13 @@ func (c *c31case) retentionProbe(maintainedEveryStep bool) {
 		rec, _, found := c.real.c.CheckTrace(id)
 		c.run.Count("retention_probe_ids", 1)
 		if found && !rec.Kept() {
-			if age >= int(c.capCurrent) {
+			if age >= int(c.curL.capa) {
 				c.run.Count("retention_probe_remembered_beyond_one_capacity", 1)
 			}
 			continue
 		}
 		c.run.Count("retention_probe_forgotten", 1)
-		if age*2 < int(c.capCurrent) {
+		if age*2 < int(c.curL.capa) {
 			c.run.Count("retention_probe_forgotten_younger_than_half_capacity", 1)
 		}
 	}
@@ -581,7 +705,7 @@ func (c *c31case) pickDropped() (string, bool) {
 func c31run(run *verifkit.Run, rng *verifkit.Rand, sample bool) {
 	workers := uint(rng.Range(1, 3))
 	kPer := uint(verifkit.Pick(rng, 1, 2, 3, 5, 8, 16, 32))
-	dPer := uint(verifkit.Pick(rng, 32, 32, 64, 64, 128, 128, 500, 1500)) // capacities whose filter is at most ~3/4 occupied when "full" (see notes/C31.md)
+	dPer := uint(verifkit.Pick(rng, 32, 32, 64, 64, 128, 128, 500, 700, 700, 1500)) // capacities whose filter is at most ~3/4 occupied when "full" (see notes/C31.md)
 	dupHeavy := rng.Chance(0.25)
 	if dupHeavy && dPer < 500 {
 		// many copies of one fingerprint make inserts fail in filters with few buckets even
@@ -599,10 +723,10 @@ func c31run(run *verifkit.Run, rng *verifkit.Rand, sample bool) {
 	defer real.c.Stop()
 	c := &c31case{run: run, rng: rng, real: real, clock: clock,
 		k: int(cfg.GetKeptSizePerWorker()), kept: map[string]*c31keptRec{}, dropped: map[string]*c31dropRec{}, everDrop: map[string]bool{},
-		capOf: map[*cuckoo.Filter]uint{}, capsUsed: map[uint]bool{}, cleanRetention: true,
+		capsUsed: map[uint]bool{}, cleanRetention: true, workers: workers, maxCycles: verifkit.Pick(rng, 0, 0, 1, 1, 2),
 		dropCount: map[string]int{}, dupHeavy: dupHeavy}
-	c.trackGens()
-	c.log(c31step{Op: "New", Note: fmt.Sprintf("kept per worker %d, dropped per worker %d, workers %d", c.k, c.capCurrent, workers)})
+	c.curL = c.newGen(cfg.GetDroppedSizePerWorker())
+	c.log(c31step{Op: "New", Note: fmt.Sprintf("kept per worker %d, dropped per worker %d, workers %d", c.k, c.curL.capa, workers)})
 	steps := rng.Range(20, 220)
 	maintainEvery := verifkit.Pick(rng, 1, 3, 10, 1000) // 1000: (almost) never, the filter overfills
 	for st := 0; st < steps; st++ {
@@ -636,7 +760,7 @@ func c31run(run *verifkit.Run, rng *verifkit.Rand, sample bool) {
 			}
 		case x < 0.42:
 			count, _ := c.real.fill()
-			room := int(c.capCurrent) - int(count)
+			room := int(c.curL.capa) - int(count)
 			n := rng.Range(1, 12)
 			switch rng.Intn(4) {
 			case 0:
@@ -645,7 +769,7 @@ func c31run(run *verifkit.Run, rng *verifkit.Rand, sample bool) {
 				}
 			case 1:
 				if room > 0 {
-					n = room + rng.Range(0, int(c.capCurrent)) // to capacity and beyond
+					n = room + rng.Range(0, int(c.curL.capa)) // to capacity and beyond
 				}
 			}
 			if dPer == 1500 && rng.Chance(0.3) {
@@ -664,6 +788,9 @@ func c31run(run *verifkit.Run, rng *verifkit.Rand, sample bool) {
 			} else if id, ok := c.pickDropped(); ok {
 				c.lookup(id, span)
 			}
+		case x < 0.845 && c.cycles < c.maxCycles:
+			c.cycles++
+			c.cycle()
 		case x < 0.88:
 			c.maintain()
 		case x < 0.92:
@@ -706,5 +833,5 @@ func TestVerif_C31(t *testing.T) {
 	run.Rule("PRNG histories on one real cuckooSentCache (kept capacity 1-32 per worker, dropped capacity 32-1500 per worker, 1-3 workers): Record(keep) of new and known ids with boundary rates and interned reasons, Record(drop) of new ids, of kept ids and of already dropped ids, bursts that stop one short of / reach / exceed the filter capacity or the add-queue depth, CheckSpan/CheckTrace biased to the next-to-be-evicted kept id and the oldest outstanding dropped promise, Maintain at different cadences (incl. never), Resize up and down, fake-clock advances across the 3 s recent-dropped TTL; non-trivial = the history looked up a kept id with exactly K-1 newer ids, recorded a dropped decision for an id that also has a kept record, and filled the filter to capacity at least once; distinct = sequence of step kinds")
 	run.Assume("answers are taken after the driver drained the add queue (CuckooTraceChecker.drain); the 100us internal drain goroutine may run concurrently; the internal monitor is parked (SizeCheckInterval 24h) and the driver calls Maintain")
 	run.Assume("'filled to capacity' is read as: entry count of the current filter >= the capacity it was created with (or load factor > 0.99); the filter library places at most 96% of its slots at that capacity, so inserts do not fail before that point")
-	run.Cases("histories", run.N(1500, 100000), func(i int, rng *verifkit.Rand) { c31run(run, rng, i < 2) })
+	run.Cases("histories", run.N(800, 80000), func(i int, rng *verifkit.Rand) { c31run(run, rng, i < 2) })
 }
